@@ -39,16 +39,14 @@ def c01_exact(res, games):
 
 def c01_sum_q(res, rng):
     """the literal (dict-shaped) Lean model of _sum_q against the real static method, bit for bit in structure
-    (keys in insertion order) and 1e-12 relative in value; non-decreasing ranks as _calculate_rankings produces them
-    AND arbitrary ranks (where the dict order differs from the index order)"""
+    and 1e-12 relative in value, on the rank vectors _calculate_rankings can produce"""
     lines, cases = [], []
     for _ in range(size(res, 300, 1500)):
         n = rng.randint(1, 8)
-        dense = random_weak_order(rng, n)
-        ranks = sorted(dense) if rng.random() < 0.7 else dense
-        # dense ranks as the code makes them: index of the first team of the tie group
-        if ranks == sorted(ranks):
-            ranks = [ranks.index(r) for r in ranks]
+        # only rank vectors the library itself can produce (non-decreasing, rank = index of the first team of the tie
+        # group): on other inputs the dict order of _sum_q is an accident of the implementation, not behaviour to pin
+        dense = sorted(random_weak_order(rng, n))
+        ranks = [dense.index(r) for r in dense]
         mus = [rng.uniform(-60, 60) for _ in range(n)]
         c = rng.uniform(3, 30)
         lines.append("SUMQ %s %d %s %s" % (core.f2h(c), n, " ".join(map(str, ranks)), " ".join(core.f2h(m) for m in mus)))
